@@ -410,6 +410,41 @@ fn server_stream_job(
     }
 }
 
+/// every single cut of the stream with a (no-op) server command processed by the session between
+/// the two reads: what the session does between two reads must not influence framing
+pub fn server_stream_job_with_command(prop: &str, cfg: &ServerCfg, label: &str, stream: &[u8], st: &mut Stats) {
+    let exp = server_expect(cfg, stream);
+    if !exp.unambiguous {
+        return;
+    }
+    for c in 1..stream.len() {
+        let cuts = [c];
+        st.evaluations += 1;
+        st.traces += 1;
+        st.transitions += 2;
+        st.class("command-between-reads");
+        let describe = || ("server-stream-command".to_string(), format!("stream [{label}] cut {c}"), json!({"kind": "server-stream-command", "property": prop, "cfg": cfg, "stream": to_hex(stream), "cuts": cuts}));
+        let problems = crate::sim::watchdog::guard(&describe, || run_server_stream_inject(cfg, stream, &cuts, &exp, false, Tail::None, Some((0, cfg.decode))));
+        st.observe(&(label.to_string(), c, problems.len()));
+        if let Some((sig, desc)) = problems.first() {
+            st.violation(Violation {
+                signature: format!("command-between-reads:{sig}"),
+                summary: format!("{} stream [{label}] ({} bytes) cut at {c} with a server command between the two reads: {desc}", if cfg.rtu { "RTU" } else { "TCP" }, stream.len()),
+                replay: json!({"kind": "server-stream-command", "property": prop, "cfg": cfg, "stream": to_hex(stream), "cuts": cuts}),
+            });
+            return;
+        }
+    }
+}
+
+pub fn replay_server_stream_command(v: &serde_json::Value) -> Vec<(String, String)> {
+    let cfg: ServerCfg = serde_json::from_value(v["cfg"].clone()).unwrap();
+    let stream = from_hex(v["stream"].as_str().unwrap());
+    let cuts: Vec<usize> = v["cuts"].as_array().unwrap().iter().map(|x| x.as_u64().unwrap() as usize).collect();
+    let exp = server_expect(&cfg, &stream);
+    run_server_stream_inject(&cfg, &stream, &cuts, &exp, false, Tail::None, Some((0, cfg.decode)))
+}
+
 pub fn replay_server_stream(v: &serde_json::Value) -> Vec<(String, String)> {
     let cfg: ServerCfg = serde_json::from_value(v["cfg"].clone()).unwrap();
     let stream = from_hex(v["stream"].as_str().unwrap());
@@ -717,6 +752,11 @@ pub fn check_c05(tier: &str) -> i32 {
         server_stream_job("C05", &cfg, &streams[i].0, &streams[i].1, bound, st);
     });
     rep.phase("server role", st, json!({"streams": streams.len()}));
+    let short: Vec<&(String, Vec<u8>)> = streams.iter().filter(|s| s.1.len() <= 300).collect();
+    let st = parallel(short.len(), |i, st| {
+        server_stream_job_with_command("C05", &cfg, &short[i].0, &short[i].1, st);
+    });
+    rep.phase("server role: a server command between two reads", st, json!({"streams": short.len()}));
     // client role
     let req = Req::ReadRegs { fc: 3, start: 0, count: 2 };
     let citems = mbap_reply_items(&req);
@@ -734,7 +774,7 @@ pub fn check_c05(tier: &str) -> i32 {
         client_stream_job("C05", false, &req, &cstreams[i].0, &cstreams[i].1, bound, st);
     });
     rep.phase("client role", st, json!({"streams": cstreams.len()}));
-    for c in ["stream-complete", "stream-ends-in-framing-error", "stream-ends-mid-frame", "client-accepts", "client-framing-error", "client-still-waiting", "client-exception"] {
+    for c in ["command-between-reads", "stream-complete", "stream-ends-in-framing-error", "stream-ends-mid-frame", "client-accepts", "client-framing-error", "client-still-waiting", "client-exception"] {
         rep.require_class(c);
     }
     rep.assumptions.push("a frame carrying a transaction id that has not been transmitted yet is never buffered before its request leaves (tokio's select! tie, excluded in DESIGN.md section 10)".into());
